@@ -1,5 +1,5 @@
 //@ tu: common/common_ctl.c libxcmctl/xcmc.c
-//@ defs: -DUT_STD_ASSERT -DXVU_STRCPY64 -DXVU_X1
+//@ defs: -DUT_STD_ASSERT -DXVU_STRCPY64 -DXVU_X2
 //@ enforce: xcmc_attr_get
 //@ flags: --no-array-field-sensitivity
 //@ props: C14
